@@ -102,7 +102,8 @@ func TestC12Race(t *testing.T) {
 }
 
 type plan struct {
-	// ReaderKind: 0 plain io.Reader, 1 also io.WriterTo, 2 also io.ByteReader
+	// ReaderKind: 0 plain io.Reader, 1 also io.WriterTo, 2 also io.ByteReader,
+	// 3 also io.Seeker (handed over positioned behind a preamble)
 	ReaderKind int            `json:"reader_kind"`
 	Style      string         `json:"style"`
 	Read       simio.ReadPlan `json:"read"`
@@ -125,7 +126,7 @@ func drawPlan(t *rapid.T, doc []byte, delim byte) plan {
 	p := plan{}
 	p.BufCap = bufCaps[rapid.IntRange(0, len(bufCaps)-1).Draw(t, "bufcap")]
 	p.Read.EOFWithData = rapid.Bool().Draw(t, "eofwithdata")
-	p.ReaderKind = rapid.IntRange(0, 2).Draw(t, "readerkind")
+	p.ReaderKind = rapid.IntRange(0, 3).Draw(t, "readerkind")
 	ints := interesting(doc, delim)
 	style := rapid.IntRange(0, 6).Draw(t, "style")
 	if len(ints) == 0 && style >= 3 && style <= 5 {
@@ -278,7 +279,7 @@ func runC12(t *rapid.T) {
 		b.Long = true
 		b.BigRows, b.BigRare = true, true
 	}
-	b.Cardinality = true
+	b.Cardinality, b.HugeCell = true, true
 	c := gen.DrawCSV(t, b)
 	p := drawPlan(t, c.Doc, c.Delim)
 	core.Eval()
